@@ -284,3 +284,136 @@ pub fn run(depth: usize) -> (u64, Option<String>) {
     }
     (count, None)
 }
+
+
+// ------------------------------------------------------------------ the shim code itself, under the scheduler
+
+struct Sh {
+    s: [Option<crossbeam_channel::Sender<u32>>; 2],
+    r: [Option<crossbeam_channel::Receiver<u32>>; 2],
+}
+impl Sh {
+    /// `timed`: use the operations with a time limit (a timeout stands for "would block") instead of try_*.
+    fn apply(&mut self, op: COp, val: u32, timed: bool) -> Res {
+        use crossbeam_channel::{RecvTimeoutError, SendTimeoutError, TryRecvError, TrySendError};
+        let d = std::time::Duration::from_millis(1);
+        match op {
+            COp::Send(i) => match &self.s[i] {
+                None => Res::NoHandle,
+                Some(s) if timed => match s.send_timeout(val, d) {
+                    Ok(()) => Res::SendOk,
+                    Err(SendTimeoutError::Timeout(_)) => Res::SendWouldBlock,
+                    Err(SendTimeoutError::Disconnected(_)) => Res::SendDisconnected,
+                },
+                Some(s) => match s.try_send(val) {
+                    Ok(()) => Res::SendOk,
+                    Err(TrySendError::Full(_)) => Res::SendWouldBlock,
+                    Err(TrySendError::Disconnected(_)) => Res::SendDisconnected,
+                },
+            },
+            COp::Recv(i) => match &self.r[i] {
+                None => Res::NoHandle,
+                Some(r) if timed => match r.recv_timeout(d) {
+                    Ok(v) => Res::Recv(v),
+                    Err(RecvTimeoutError::Timeout) => Res::RecvWouldBlock,
+                    Err(RecvTimeoutError::Disconnected) => Res::RecvDisconnected,
+                },
+                Some(r) => match r.try_recv() {
+                    Ok(v) => Res::Recv(v),
+                    Err(TryRecvError::Empty) => Res::RecvWouldBlock,
+                    Err(TryRecvError::Disconnected) => Res::RecvDisconnected,
+                },
+            },
+            COp::CloneS(i) => {
+                if i == 0 && self.s[0].is_some() && self.s[1].is_none() {
+                    self.s[1] = self.s[0].clone();
+                    Res::Unit
+                } else {
+                    Res::NoHandle
+                }
+            }
+            COp::CloneR(i) => {
+                if i == 0 && self.r[0].is_some() && self.r[1].is_none() {
+                    self.r[1] = self.r[0].clone();
+                    Res::Unit
+                } else {
+                    Res::NoHandle
+                }
+            }
+            COp::DropS(i) => {
+                if self.s[i].take().is_some() {
+                    Res::Unit
+                } else {
+                    Res::NoHandle
+                }
+            }
+            COp::DropR(i) => {
+                if self.r[i].take().is_some() {
+                    Res::Unit
+                } else {
+                    Res::NoHandle
+                }
+            }
+        }
+    }
+}
+
+/// The shim channel code as the code under test sees it (inside a controlled execution, one thread): every operation
+/// sequence up to `depth`, with the non-blocking operations and with the timed ones, against real crossbeam.
+/// Returns (sequences checked, first disagreement).
+pub fn run_shim(depth: usize) -> (u64, Option<String>) {
+    use std::sync::{Arc, Mutex};
+    let ops = all_ops();
+    // all sequences of this depth
+    let mut seqs: Vec<Vec<usize>> = vec![vec![]];
+    for _ in 0..depth {
+        seqs = seqs.into_iter().flat_map(|p| (0..ops.len()).map(move |o| { let mut q = p.clone(); q.push(o); q })).collect();
+    }
+    let mut total = 0u64;
+    for cap in [Some(1usize), Some(2), None] {
+        for timed in [false, true] {
+            // chunks keep the number of channels per execution small (the scheduler's state hash visits them all)
+            for chunk in seqs.chunks(400) {
+                let chunk: Vec<Vec<usize>> = chunk.to_vec();
+                let n = chunk.len() as u64;
+                let out: Arc<Mutex<Option<String>>> = Arc::new(Mutex::new(None));
+                let out2 = out.clone();
+                let policy = fp_sched::core::Policy { prefix: vec![], max_steps: 1_000_000, yield_on_unbounded_send: false, cap_override: None, descending: false };
+                let r = fp_sched::core::run_execution(policy, move || {
+                    let ops = all_ops();
+                    for seq in &chunk {
+                        let (s, r) = match cap {
+                            Some(c) => crossbeam_channel::bounded(c),
+                            None => crossbeam_channel::unbounded(),
+                        };
+                        let mut shim = Sh { s: [Some(s), None], r: [Some(r), None] };
+                        let (s, r) = match cap {
+                            Some(c) => real_crossbeam::bounded(c),
+                            None => real_crossbeam::unbounded(),
+                        };
+                        let mut real = Cb { s: [Some(s), None], r: [Some(r), None] };
+                        for (k, &oi) in seq.iter().enumerate() {
+                            let a = shim.apply(ops[oi], k as u32, timed);
+                            let b = real.apply(ops[oi], k as u32);
+                            if a != b {
+                                *out2.lock().unwrap() = Some(format!("capacity {:?}, {} operations: after {:?} the operation {:?} gives {:?} on real crossbeam and {:?} on the shim under the scheduler", cap, if timed { "timed" } else { "non-blocking" }, seq[..k].iter().map(|i| ops[*i]).collect::<Vec<_>>(), ops[oi], b, a));
+                                return;
+                            }
+                        }
+                    }
+                });
+                if let Some(d) = out.lock().unwrap().clone() {
+                    return (total, Some(d));
+                }
+                if r.outcome != fp_sched::core::Outcome::Completed {
+                    return (total, Some(format!("the conformance execution ended with {:?}", r.outcome)));
+                }
+                if let Some((t, m)) = r.panics.first() {
+                    return (total, Some(format!("thread {t} panicked: {m}")));
+                }
+                total += n;
+            }
+        }
+    }
+    (total, None)
+}
